@@ -57,6 +57,9 @@ fn copy_atomic(src: &Path, dst: &Path) -> std::io::Result<()> {
     tmp.push(".copia-tmp");
     let tmp = PathBuf::from(tmp);
     std::fs::copy(src, &tmp)?;
+    // Flush the staged bytes before publishing them (tmp -> sync_all -> rename): the
+    // archive written afterwards must never describe data that is not on stable storage.
+    std::fs::File::open(&tmp)?.sync_all()?;
     std::fs::rename(&tmp, dst)
 }
 
